@@ -40,7 +40,11 @@ claim("C15",
       "Static, all paths of the receive loops (with path-sensitive enumeration of loop iterations where loop-carried flags correlate branches): connection closed before channel in a deferred function installed before the loop, every exit preceded by a send, error-free envelopes only after read-ok / ID match / RCODE 0 on every envelope and SOA-first in the first iteration, timers-only on before the second read, every message verified against the running MAC when a provider is configured with the verdict returned, sender-side per-envelope reply/write/timers-only and MAC chaining in both writers. The exact delivery/termination behaviour for every envelope composition (IXFR serial counting) is not decided: histories.",
       STATIC_NOTE, "guarded-success and must-pass on SSA CFG; iteration-path enumeration with correlated-branch pruning")
 
+claim("C18",
+      "Static, all paths of sig0.go: Verify's success only from the verifier's verdict, inside the validity window read in RRSIG order, with the key's owner as signer; digest input order and the big-endian ARCOUNT-1 octets by bit provenance; Sign's RDLENGTH/ARCOUNT read-modify-write patches as 16-bit quantities after the 65535 test and its digest operands; the buffer contract (a buffer PackBuffer must reuse is sized from the uncompressed length); affine guard coverage of every variable-offset read in Verify; RSA size limits. Cryptographic tamper-evidence and success for every message are not decided.",
+      STATIC_NOTE, "guarded-success on SSA; byte-access and bit provenance; affine guard normalisation; stated-belief rule")
+
 _pending = "rules for this property are designed (DESIGN.md §4) but not implemented yet; not claimed until they run"
-for p in ["C02","C03","C05","C06","C07","C09","C12","C16","C18"]:
+for p in ["C02","C03","C05","C06","C07","C09","C12","C16"]:
     na(p, _pending)
 na("C19", "every clause is an equality between index arithmetic on a runtime string and its label sequence; no pairing/ownership/ordering/table structure to decide statically (DESIGN.md §8)")
